@@ -21,6 +21,10 @@ CLAIMED = {
          "The model enumerates every arrival history, chunk size class relative to the bufio buffer, fault offset and failing Close, proves NoSilentLoss/FaultReported/NoFalseAlarm and termination, and shows that each of the four sites where the error can surface (direct write, drained write, flush at close, close) is reached; each case is forced on the real writers and the outcome (log.Fatal or not, bytes accepted) must equal the model's; small outputs are additionally faulted at every byte offset and the real binaries are run against /dev/full, both validated by WriterFaultTrace.",
          "Trusted: TLC, the failing sink of the harness, the logrus exit hook (fatal = non-zero exit). Abstract fault offsets are mapped proportionally on real byte lengths. Closed-pipe (SIGPIPE) outputs are not exercised.",
          "DESIGN.md 5 C18"),
+ "C17": ("TLC model checking of ReaderFault.tla (decompressor -> MIME sniffer ReadFull -> chunk reader ReadFull; origin of an unexpected EOF tracked; negative test of the as-written variant) + TLC trace validation of the real commands run on real truncated / bit-flipped files of the four codecs (file argument and stdin)",
+         "The model proves FaultIsFatal / NoSilentTruncation / HealthyIsNotFatal and termination for every (decompressed size vs buffer sizes, fault kind, fault position) and shows the four sites where the fault can surface (constructor, sniffer read, first chunk read, later reads); real .gz/.bz2/.xz/.zst files written by the repository's own writers are truncated at every byte (thorough; sampled incl. header and trailer regions in quick; files larger than the 1 MiB sniffing buffer included) and bit-flipped, the codec library classifies each fault (instrument), the obiconvert/obicount binaries are run on each (file and stdin) and ReaderFaultTrace accepts the run only if a detectable fault gives a non-zero exit and an intact file gives all records.",
+         "Trusted: TLC, the codec libraries as instrument for 'is this fault detectable and after how many bytes'. Faults the codec cannot see and prefixes shorter than the magic number are skipped (counted). One known finding (pgzip accepts a .gz whose whole 8-byte trailer is missing).",
+         "DESIGN.md 5 C17"),
 }
 
 NOT_YET = "check not built yet in this round (planned, see DESIGN.md 10); not claimed"
